@@ -815,8 +815,10 @@ def c20(run):
         plan = [("str", "int", 3), ("arr", "float", 3), ("bool", "str", 3), ("int", "arr", 3), ("float", "bool", 3)]
         # every ordered pair with short histories: a name registered for one type only, called on the other
         plan += [(a, b, 2) for a in types for b in types if a != b]
+        # one receiver type, histories of four operations: load, a render, a registration, a call of the new function
+        plan += [(a, a, 4) for a in types]
     else:
-        plan = [(a, b, 3) for a in types for b in types if a != b] + [("str", "int", 4), ("arr", "bool", 4), ("float", "int", 4)]
+        plan = [(a, b, 3) for a in types for b in types if a != b] + [("str", "int", 4), ("arr", "bool", 4), ("float", "int", 4)] + [(a, a, 5) for a in types]
     sts = run.tlc_many([dict(module="MC_Reg", cfg=reg_cfg(a, b, n), name="MC_Reg_%s_%s_%d" % (a, b, n), timeout=3000, workers=2)
                         for a, b, n in plan], parallel=8)
     for st in sts:
